@@ -3,7 +3,7 @@ from props import _auto
 
 LEAN_MODULES = _auto.lean_modules("C14")
 VARIANTS = ['default']
-RULE = 'honest pairs; all 512 signature bit flips per sampled signature; message/key flips; S+kL; small-order / non-canonical / non-point A and R; random triples; non-trivial = any; distinct = distinct case lines'
+RULE = 'honest pairs; all 512 signature bit flips per sampled signature; message/key flips; S+kL; small-order / non-canonical / non-point A and R (R not a point with an otherwise honest signature, both sign bits, also with S=0 and a small-order A); random triples; non-trivial = any; distinct = distinct case lines'
 TRUSTED = ["hand-written Lean models (lean/CxVerif/Impl, Spec) tied to the code by the correspondence run and by tables re-extracted from /repo/src"]
 ASSUMPTIONS = []
 gen = _auto.make_gen("C14")
